@@ -114,7 +114,7 @@ pub fn install_panic_hook() {
                         lib_frame = Some(rest.rsplitn(2, ':').nth(1).unwrap_or(rest).to_string());
                         break;
                     }
-                    if rest.contains("/verif/sim/src/") {
+                    if rest.contains("/verif/sim/src/") || rest.starts_with("./src/") || rest.starts_with("src/") {
                         break; // harness code is closer to the panic
                     }
                 }
